@@ -11,6 +11,10 @@ streams/<i>.stdout files of several repetitions, consumed through `<component>:o
 per component, what every reference resolves to, the stdout path and the command line with references substituted.
 
 Oracle:  (B) all dumps of one (package, options, entry point) are equal;
+         (V) cross-stage shadowing (a global variable overridden in SOME stages, other stages deriving stage variables
+             from it): besides (B), no component / stage-variable table of stage S carries the value that ANOTHER
+             stage's variables give to the variable, derived variables hold the global value, and the number of
+             replicas driven by such a variable is the global one - in every process;
          (S) a `:output` reference to a repeating component resolves to the same file, and its consumer gets the same
              memoization hash, in children that were shown the streams directory in different orders;
          (A) the user variables a child reports equal an independent fold of the given files (last wins) and no
@@ -199,6 +203,90 @@ def judge_stream_refs(c: vlib.Check, case: Dict[str, Any], oks: List[Any], per_c
             c.count("stream_output_refs_equal_in_all_children")
 
 
+_XTOK = re.compile(r"(?<![A-Za-z0-9])(?:oa?\d+|ga?)-xv\d+")
+
+
+def judge_shadow(c: vlib.Check, case: Dict[str, Any], entry: str, pc: Dict[str, Any], d: Dict[str, Any],
+                 per_child: List[Dict[str, Any]]) -> List[Any]:
+    """Clause V, one loaded dump.  Values are unique tokens naming the scope they were written in:
+    g-xv<k> / ga-xv<k> (global, default / platform section), o<A>-xv<k> / oa<A>-xv<k> (stage A's variables).
+    Stage variables are visible inside their stage only, so a token of stage A must not surface in anything that
+    belongs to a stage S != A, whatever order the loader visits the stages in."""
+    sh = case.get("shadow")
+    problems: List[Any] = []   # [(message, witness)] - the caller reports ONE violation per (package, entry point)
+    if not sh:
+        return problems
+    wit = {"case": case, "entry": entry, "child": pc["child"], "hashseed": pc["hashseed"],
+           "stage_order_of_an_identifier_set": (pc.get("info") or {}).get("stage_order_of_an_identifier_set"),
+           "hashseeds": [p["hashseed"] for p in per_child], "child_seeds": [p["child_seed"] for p in per_child]}
+    alt = case.get("platform") == "alt"
+
+    def scan(owner: str, stage: int, text: str):
+        for tok in sorted(set(_XTOK.findall(text))):
+            a = gen.shadow_token_stage(tok)
+            c.count("shadow_value_scope_checks")
+            if a is None:
+                c.count("shadow_global_values_seen")
+            elif a == stage:
+                c.count("shadow_own_stage_overrides_seen")
+            else:
+                x = tok.split("-", 1)[1]
+                problems.append((
+                    "%s (stage %d) carries %r, the value that the variables of stage %d give to %s; stage %d does "
+                    "not define %s, only the global value is visible there (entry=%s, hash seed %s, an identifier "
+                    "set lists the stages as %s in that process)" % (
+                        owner, stage, tok, a, x, stage, x, entry, pc["hashseed"],
+                        wit["stage_order_of_an_identifier_set"]),
+                    dict(wit, owner=owner, stage=stage, foreign_value=tok, foreign_stage=a)))
+
+    for n, cc in (d.get("components") or {}).items():
+        m = re.match(r"stage(\d+)\.", n)
+        if not m:
+            continue
+        scan("component %s" % n, int(m.group(1)),
+             json.dumps([cc.get("config"), cc.get("environment"), cc.get("resolved_arguments")], default=repr))
+    vd = d.get("variables_defined") or {}
+    tables = {}
+    for plat, sec in vd.items():
+        for st, tab in ((sec or {}).get("stages") or {}).items():
+            if str(st).isdigit() and isinstance(tab, dict):
+                tables[(plat, int(st))] = tab
+                scan("stage-variable table %s/%s" % (plat, st), int(st), json.dumps(tab, default=repr))
+    # derived variables: %(X)s seen from a stage that does not define X is the global X
+    plat_loaded = d.get("platform") or "default"
+    for b, dname, x in sh["derived"]:
+        xi = sh["vars"][x]
+        exp = xi["alt_global"] if (alt and xi["alt_global"]) else xi["global"]
+        tab = tables.get((plat_loaded, int(b)))
+        if tab is None or dname not in tab:
+            continue
+        c.count("shadow_derived_values_checked")
+        if tab[dname] == exp:
+            c.count("shadow_derived_values_equal_global")
+        elif isinstance(tab[dname], str) and "%(" in tab[dname]:
+            c.count("shadow_derived_values_left_unresolved")
+        else:
+            problems.append(("stage variable %s of stage %s is defined as %%(%s)s; stage %s does not define %s, so it is the "
+                        "global value %r - got %r (entry=%s, hash seed %s)" % (dname, b, x, b, x, exp, tab[dname], entry,
+                                                                              pc["hashseed"]),
+                        dict(wit, variable=dname, stage=b, expected=exp, observed=tab[dname])))
+    rp = sh.get("replicate")
+    if rp and entry != "graph_primitive":
+        exp_n = rp["alt_global"] if (alt and rp["alt_global"]) else rp["global"]
+        pat = re.compile(r"stage%d\.%s(\d+)$" % (rp["stage"], re.escape(rp["source"])))
+        got = sorted(int(pat.match(n).group(1)) for n in (d.get("nodes") or []) if pat.match(n))
+        c.count("shadow_replicate_counts_checked")
+        if got != list(range(exp_n)):
+            problems.append(("replicate count of stage%d.%s comes from %%(dvr)s = %%(xvr)s; stage %d does not define xvr, the "
+                        "global value is %d, stage %d overrides it with %d: expected replicas %s, got %s (entry=%s, hash "
+                        "seed %s)" % (rp["stage"], rp["source"], rp["stage"], exp_n, rp["over_stage"], rp["override"],
+                                      list(range(exp_n)), got, entry, pc["hashseed"]),
+                        dict(wit, expected_replicas=exp_n, observed_replicas=got)))
+        else:
+            c.count("shadow_replicate_counts_equal_global")
+    return problems
+
+
 def judge_case(c: vlib.Check, case: Dict[str, Any], per_child: List[Dict[str, Any]]):
     """per_child: [{'child':i,'hashseed':s,'dumps':{entry:dump}}]"""
     expected = canon_uservars(gen.expected_user_variables(case))
@@ -209,6 +297,7 @@ def judge_case(c: vlib.Check, case: Dict[str, Any], per_child: List[Dict[str, An
     nontrivial = False
     for entry in ENTRIES:
         oks, tainted = [], []
+        shadow_bad: List[Any] = []
         outcomes = set()
         for pc in per_child:
             d = pc["dumps"].get(entry)
@@ -220,6 +309,9 @@ def judge_case(c: vlib.Check, case: Dict[str, Any], per_child: List[Dict[str, An
                 c.count("loads_exc")
                 continue
             c.count("loads_ok")
+            sp = judge_shadow(c, case, entry, pc, d, per_child)
+            if sp:
+                shadow_bad.append((pc, sp))
             seen = d.get("layering_order_seen")
             uv = canon_uservars(d.get("user_variables") or {})
             # ---- oracle A: last file wins
@@ -268,6 +360,14 @@ def judge_case(c: vlib.Check, case: Dict[str, Any], per_child: List[Dict[str, An
                         else:
                             c.count("no_loser_value_checks")
             (tainted if is_tainted else oks).append((pc, d))
+        if shadow_bad:
+            pc0, sp0 = shadow_bad[0]
+            w0 = dict(sp0[0][1])
+            w0["other_problems_in_this_child"] = [m_ for m_, _ in sp0[1:6]]
+            w0["children_affected"] = [[p_["child"], p_["hashseed"], len(x_)] for p_, x_ in shadow_bad]
+            c.count("shadow_scope_problems_found", sum(len(x_) for _, x_ in shadow_bad))
+            c.violation("%s [%d such problem(s) in this process; %d of %d processes affected]" % (
+                sp0[0][0], len(sp0), len(shadow_bad), len(per_child)), w0)
         if len(outcomes) > 1:
             c.violation("load outcome differs between processes: %s" % sorted(map(str, outcomes)),
                         {"case": case, "entry": entry, "outcomes": sorted(map(str, outcomes)),
@@ -332,6 +432,17 @@ def judge_case(c: vlib.Check, case: Dict[str, Any], per_child: List[Dict[str, An
                          "hashseed_a": oks[0][0]["hashseed"], "hashseed_b": pc["hashseed"],
                          "hashseeds": [p["hashseed"] for p in per_child],
                          "child_seeds": [p["child_seed"] for p in per_child]})
+    if nontrivial and case.get("shadow"):
+        c.count("shadow_packages_judged")
+        seeds = {pc["hashseed"] for pc in per_child if (pc["dumps"].get("factory") or {}).get("outcome") == "ok"}
+        c.count("shadow_package_loads_under_distinct_hashseeds", len(seeds))
+        if len(seeds) >= 8:
+            c.count("shadow_packages_loaded_under_8plus_hashseeds")
+        orders = {json.dumps((pc.get("info") or {}).get("stage_order_of_an_identifier_set")) for pc in per_child}
+        if len(orders) >= 2:
+            c.count("shadow_packages_whose_children_list_stages_in_2plus_orders")
+        if case["shadow"]["stages"] >= 3:
+            c.count("shadow_packages_with_3plus_stages")
     if nontrivial:
         c.distinct(case["klass"])
         c.count("packages_judged")
@@ -409,7 +520,9 @@ def main():
         "C15", "exploration",
         rule="seeded FlowIR / DSL 2.0 / DOSINI packages x option sets (platform, 0-4 user variable files in a given "
              "order, a path possibly given twice; FlowIR/DOSINI: repeating components with 2-5 archived stdout streams "
-             "consumed through :output), each loaded through 4 entry points (incl. the primitive graph; FlowIR/DOSINI components may have names ending in digits) by K real child processes with "
+             "consumed through :output; FlowIR: cross-stage variable shadowing over >= 3 stages - globals overridden in "
+             "some stages, other stages deriving stage variables from them, feeding arguments / references / "
+             "environment values / replicate counts), each loaded through 4 entry points (incl. the primitive graph; FlowIR/DOSINI components may have names ending in digits) by K real child processes with "
              "distinct PYTHONHASHSEED, re-shuffled mapping key order of every input document and shuffled "
              "listdir/scandir/glob answers; a package counts as non-trivial when >= 2 children with different string "
              "hash functions produced a dump for it; distinct = distinct structural classes (kind, #stages, "
@@ -424,6 +537,9 @@ def main():
             "Dumps are compared after replacing the child's scratch root and the instance timestamp by placeholders; "
             "for a load that raises only the exception class is compared (messages are not part of the statement).",
             "Listing order is varied by a shim around os.listdir/os.scandir/glob inside the child, not by the file system.",
+            "Shadowed variables (xv<k>, xvr) and the stage variables derived from them are not touched by user variable "
+            "files; their values are unique tokens naming the scope they were written in. Stage variables are taken "
+            "to be visible inside their own stage only (a value of stage A's table must not surface in stage S != A).",
             "Archived streams are written by the harness the way RepeatingEngine.archive_stream leaves them (at most 5 "
             "contiguous indices, stdout+stderr); WHICH stream a :output reference picks is not judged, only that it "
             "is the same one (and the same consumer hash) under every listing order.",
@@ -459,6 +575,13 @@ def main():
     c.floor("fuzzy_hashes_compared", n)
     c.floor("strong_hashes_compared", n)
     c.floor("listing_calls_reordered", n * p["children"])
+    c.floor("shadow_packages_judged", n // 4)
+    c.floor("shadow_packages_with_3plus_stages", n // 4)
+    c.floor("shadow_packages_loaded_under_8plus_hashseeds", n // 4)
+    c.floor("shadow_package_loads_under_distinct_hashseeds", (n // 4) * 8)
+    c.floor("shadow_packages_whose_children_list_stages_in_2plus_orders", n // 4)
+    c.floor("shadow_value_scope_checks", n * p["children"])
+    c.floor("shadow_global_values_seen", n * p["children"])
     c.floor("stream_output_refs_compared", n // 4)
     c.floor("stream_output_refs_resolved_to_an_archived_stream", n // 4)
     c.floor("stream_consumer_strong_hashes_compared", n // 4)
